@@ -296,6 +296,18 @@ def count_rule(ck, prog):
             ck.ob("COUNT", f"{name}:{count}#{n}", good,
                   f"Air::{name}: the loop drawing one coefficient per item runs over 0..{count}()", loc=f.loc(hdr[0][0], T),
                   detail=None if good else {"range": f"{lo} .. {hi[:2]}"})
+        # one draw replicated: `vec![coin.draw()?; n]` evaluates the draw ONCE — every coefficient of the family is the same element, the
+        # composition degenerates to alpha * (sum of the constraints) and violations that cancel in the plain sum pass (seed C02-N)
+        for b, t in f.calls():
+            if not (callee_name(t) or "").endswith(("vec::from_elem", "Vec::resize", "iter::repeat", "iter::repeat_n")) or not t["args"]:
+                continue
+            args = t["args"][:1] if not (callee_name(t) or "").endswith("Vec::resize") else t["args"][2:3]
+            w = g.walk(ops=args, at=(b, T))
+            if any(x.endswith("RandomCoin::draw") for x in g.callee_names_in(w)):
+                n += 1
+                ck.ob("COUNT", f"{name}:one-draw-replicated#{n}", False,
+                      f"Air::{name}: every coefficient is drawn from the coin separately", loc=f.loc(b, T),
+                      detail="a single drawn element is replicated for the whole family: all constraints of the family share one coefficient")
     ck.floor("coefficient-drawing loops", n, 5)
 
 
